@@ -500,8 +500,11 @@ def _extra_rules(ctx, repo, ps, dps, mps):
         return NotImplemented
     for e in (0, 1, 2, 3, -1, -2, 0.5, 1.5):
         for sh in (0, 0.5, -0.25, 0.3):
-            env = {'op': {'gate': {'exponent': e, 'global_shift': sh, '_exponent': e, '_global_shift': sh}, 'qubits': ('q0',)},
-                   'pauli': {'on': lambda *q: _PS('P', 1)}}
+            # the walrus target of the branch test holds the Pauli the gate class maps to (whatever it is called)
+            pname = next((n.target.id for n in ast.walk(branch.test) if isinstance(n, ast.NamedExpr)), 'pauli')
+            opname = fn.args.args[0].arg
+            env = {opname: {'gate': {'exponent': e, 'global_shift': sh, '_exponent': e, '_global_shift': sh}, 'qubits': ('q0',)},
+                   pname: {'on': lambda *q: _PS('P', 1)}}
             it = fdx.NumInterp(env, call_hook=call_hook)
             key = f'cirq.ops.pauli_string._try_interpret_as_pauli_string:shortcut:e={e}:shift={sh}'
             try:
